@@ -966,12 +966,50 @@ example : (subsetSel (fun a b => decide (a ≤ b)) "p_".toList ".pt".toList "fea
     (.lastN 1)).Nodup :=
   C17_subset_dir_nodup _ _ _ _ _ _ _ (by decide) (by decide) (by intro l h; cases h)
 
+/-! Audit E: the remaining round-3 theorems applied with ALL their hypotheses on an inconsistent tree
+(`feat/` has `a`, `b` and a name that does not match; `ali/` has `a` and the stray `z`; `ref/` has `b`
+and `z`; `hyp/` is unknown to the command). -/
+def exTree : List (String × List Char) :=
+  [("feat", "p_a.pt".toList), ("feat", "p_b.pt".toList), ("feat", "notes".toList),
+   ("ali", "p_a.pt".toList), ("ali", "p_z.pt".toList), ("ref", "p_b.pt".toList),
+   ("ref", "p_z.pt".toList), ("hyp", "p_a.pt".toList)]
+
+/-- `C17_subset_dir` with a criterion that is NOT a list (`--last-n 1`, hard links): the side
+condition comes from `C17_subset_dir_nodup` (sorting does not reduce under `decide`). -/
+example := C17_subset_dir (fun a b => decide (a ≤ b)) "p_".toList ".pt".toList "feat" ["ali", "ref"]
+  (fun _ => 1) exTree (.lastN 1) true (by decide)
+  (.inl (C17_subset_dir_nodup _ _ _ _ _ _ _ (by decide) (by decide) (by intro l h; cases h)))
+
+/-- `C17_subset_dir_stray`: a successful run with the stray `z` REQUESTED (and `a` listed twice, `--copy`). -/
+example := C17_subset_dir_stray (fun a b => decide (a ≤ b)) "p_".toList ".pt".toList "feat" ["ali", "ref"]
+  (fun _ => 1) exTree (.uttList ["z".toList, "a".toList, "a".toList, "b".toList]) false
+  [("feat", "p_a.pt".toList), ("ali", "p_a.pt".toList), ("feat", "p_b.pt".toList), ("ref", "p_b.pt".toList)]
+  (by decide)
+
+/-- `C17_subset_dir_ids` fed by `C17_subset_dir_list`: whatever `dest` the command leaves for the request
+`z, a, nowhere`, its `feat/` lists exactly `a` - the requested utterance that `feat/` of `src` has. -/
+example : ∃ d, subsetCmd (fun a b => decide (a ≤ b)) "p_".toList ".pt".toList "feat" ["ali", "ref"]
+      (fun _ => 1) exTree (.uttList ["z".toList, "a".toList, "nowhere".toList]) true = .ok d ∧
+    ∀ u, u ∈ featIds "p_".toList ".pt".toList "feat" d ↔ u = "a".toList := by
+  obtain ⟨⟨d, h1, h2⟩, h3, h4⟩ := C17_subset_dir (fun a b => decide (a ≤ b)) "p_".toList ".pt".toList
+    "feat" ["ali", "ref"] (fun _ => 1) exTree (.uttList ["z".toList, "a".toList, "nowhere".toList]) true
+    (by decide) (.inl (by decide))
+  refine ⟨d, h1, fun u => ?_⟩
+  rw [(C17_subset_dir_ids "p_".toList ".pt".toList "feat" ["ali", "ref"] exTree _ d h2 h3 (by decide)).2 u]
+  have hsel : subsetSel (fun a b => decide (a ≤ b)) "p_".toList ".pt".toList "feat" (fun _ => 1) exTree
+      (.uttList ["z".toList, "a".toList, "nowhere".toList]) = ["a".toList] := by decide
+  rw [hsel]
+  simp
+
 /-- **C17_dataset_ids** — the utterances `chunk-torch-spect-data-dir` and
 `get-torch-spect-data-dir-info` walk (`SpectDataSet.find_utt_ids`, model `dataSetIds`) on any tree:
 exactly the utterances of `feat/` that every one of `ali/`, `ref/` which counts (exists and holds
 at least one selected name: `has_ali` / `has_ref`) lists as well; an utterance missing in one of
 them, or present only outside `feat/`, is not walked; a sub-directory without any selected name
-removes nothing. (Small: the content is that the model's filter is this intersection.) -/
+removes nothing. DEFINITIONAL (audit E): the proof is `List.mem_filter` / `List.all_eq_true` /
+`List.any_eq_true` on `dataSetIds` / `dataSetSubs` - the model's filter read as a formula, the same
+class as `C17_subset_copy`. Kept as documentation of the model, NOT counted as an obligation; that
+`SpectDataSet.find_utt_ids` computes this set is correspondence (`datadir` cases). -/
 theorem C17_dataset_ids (p s : List α) (featSub : σ) (otherSubs : List σ)
     (tree : List (σ × List α)) (u : List α) :
     u ∈ dataSetIds p s featSub otherSubs tree ↔
